@@ -143,6 +143,11 @@ func driveC10(c *h.Ctx) error {
 		}
 	} else {
 		cases = append(cases, ccGenTriggers()...)
+		for _, gc := range ccGenRaces() {
+			if gc.Family == "race-after-cancel" {
+				cases = append(cases, gc)
+			}
+		}
 		for _, gc := range ccGenRandom(c.Rng.Fork(21), c.Pick(600, 8000)) {
 			// keep the random scenarios that exercise a cancellation or a concurrent Close
 			for _, st := range gc.Sc.Steps {
